@@ -18,6 +18,7 @@ from typing import Any
 
 from detsim import env, gen, rng
 from detsim.observe import exc_token, observe_chart, observe_track, scrub, us
+from detsim.runner import Discard
 from detsim.sched import HarnessError, Scheduler
 
 PROP = "C19"
@@ -146,6 +147,19 @@ def make_plan(seed: int, tier: str, index: int) -> dict[str, Any]:
     doc = gen.gen_doc(g, max_tracks=4, small=g.random() < 0.5)
     doc["unknown"] = []
     text = gen.render(doc)
+    if doc["tracks"] and g.random() < 0.3:
+        # unusual but accepted input: records of one instrument section out of tick order (the
+        # parser neither sorts nor always rejects them; runs whose chart is rejected are discarded)
+        secs = gen.sections(doc)
+        si = 3 + g.randrange(len(doc["tracks"]))
+        body = secs[si][1]
+        if len(body) >= 2:
+            if g.random() < 0.5:
+                i, j = g.sample(range(len(body)), 2)
+                body[i], body[j] = body[j], body[i]
+            else:
+                g.shuffle(body)
+        text = gen.render_sections(secs)
     present = [t[0] for t in doc["tracks"]]
     ticks = sorted({t for t, _ in doc["tempos"]} | {gr["tick"] for tr in doc["tracks"] for gr in tr[1]}
                    | {0})
@@ -360,8 +374,11 @@ def execute(plan: dict[str, Any]) -> dict[str, Any]:
         absent = "absent" if (op and _absent_flag(op, present)) else "present"
         violations.append({"sig": f"C19/{inv}/{opk}/{absent}/{extra}", "detail": detail})
 
-    chart = world.parse_text(text)
-    twin = world.parse_text(text)
+    try:
+        chart = world.parse_text(text)
+        twin = world.parse_text(text)
+    except Exception as e:  # noqa: BLE001
+        raise Discard("chart-rejected:" + type(e).__name__) from e
     obs0 = rng.digest(observe_chart(chart))
     if not (chart == twin and twin == chart):
         vio("twin-unequal", None, "-", "chart != twin right after the initial observation of chart")
